@@ -192,7 +192,8 @@ Definition ps_dyn_read (h : Z) : ps_prog (option ps_dyn) :=
   ps_rd h PS_PROTO (fun x => match x with None => PsRet None | Some proto =>
   ps_rd h PS_LEN (fun x => match x with None => PsRet None | Some sz =>
   if negb (ps_size_ok (ps_dec_size sz)) then PsRet None else
-  ps_rd h (ps_dec_size sz) (fun x => match x with None => PsRet None | Some name =>
+  (if ps_dec_size sz =? 0 then fun k => k (Some []) else ps_rd h (ps_dec_size sz))
+    (fun x => match x with None => PsRet None | Some name =>
   ps_rd h PS_LEN (fun x => match x with None => PsRet None | Some sz2 =>
   if negb (ps_size_ok (ps_dec_size sz2)) then PsRet None else
   ps_rd h (ps_dec_size sz2) (fun x => match x with None => PsRet None | Some pkt =>
@@ -202,7 +203,8 @@ Definition ps_dyn_read (h : Z) : ps_prog (option ps_dyn) :=
 Definition ps_dyn_write (h : Z) (r : ps_dyn) : ps_prog bool :=
   ps_wr h (dy_proto r) (fun ok => if negb ok then PsRet false else
   ps_wr h (ps_enc_size (len (dy_name r))) (fun ok => if negb ok then PsRet false else
-  ps_wr h (dy_name r) (fun ok => if negb ok then PsRet false else
+  (match dy_name r with [] => fun k => k true | _ => ps_wr h (dy_name r) end)
+    (fun ok => if negb ok then PsRet false else
   ps_wr h (ps_enc_size (len (dy_pkt r))) (fun ok => if negb ok then PsRet false else
   ps_wr h (dy_pkt r) (fun ok => PsRet ok))))).
 
